@@ -148,6 +148,7 @@ extern int vp_sigaction_calls, vp_chdir_calls, vp_sigprocmask_calls;
 extern int vp_calls_pipe, vp_calls_open, vp_calls_fork, vp_calls_total;
 extern int vp_kill_calls, vp_waitpid_calls, vp_poll_calls;
 extern uint32_t vp_child_dfl; /* child side: signals reset to SIG_DFL */
+extern int8_t vp_sig_disp[32]; /* current disposition per signal: 0 default, 1 ignored, 2 handler */
 extern bool vp_std_present[3];/* does the parent have FILE stdin/stdout/stderr */
 extern int vp_rlim_mode;      /* 0: soft limit = VP_NFD, 1: huge, 2: RLIM_INFINITY */
 extern const char *vp_cwd;    /* what getcwd returns */
